@@ -7,6 +7,7 @@ import (
 	"context"
 	"fmt"
 	"math"
+	"os"
 	"reflect"
 	"sort"
 	"strings"
@@ -102,6 +103,9 @@ func c18Maximal(v reflect.Value, strict bool, out *[]parser.QueryExpression) {
 		}
 		return
 	case reflect.Struct:
+		if v.IsZero() { // an unused alternative (e.g. CursorDeclaration.Query / .Statement), not a node
+			return
+		}
 		if !strict && v.Type().Implements(c18QE) && v.Type().PkgPath() == "github.com/mithrandie/csvq/lib/parser" && v.CanInterface() {
 			if _, known := c18Context(v.Interface().(parser.QueryExpression)); known {
 				*out = append(*out, v.Interface().(parser.QueryExpression))
@@ -123,6 +127,13 @@ func c18Maximal(v reflect.Value, strict bool, out *[]parser.QueryExpression) {
 // type is a complete constituent.  ok=false: the type has no context of its own (its children are
 // looked at instead).
 func c18Context(n parser.QueryExpression) (func(s string) string, bool) {
+	if p, ok := n.(parser.Parentheses); ok && p.Expr != nil {
+		// '(' table ')' in a FROM clause and '(' value ')' share the node type
+		switch p.Expr.(type) {
+		case parser.Table, parser.Join:
+			return func(s string) string { return "SELECT 1 FROM " + s }, true
+		}
+	}
 	switch n.(type) {
 	case parser.SelectQuery, parser.SelectEntity, parser.SelectSet, parser.SelectClause:
 		return func(s string) string { return s }, true
@@ -266,6 +277,9 @@ func (d *c18Diff) run(in c18Input, prep, ansi bool) {
 		}
 		if strings.HasPrefix(in.Origin, "corpus") {
 			meta.Distribution["corpus-unparsable:"+in.Origin]++
+			if os.Getenv("C18_DEBUG") != "" {
+				fmt.Fprintf(os.Stderr, "UNPARSABLE %s prep=%v ansi=%v L%d C%d %s\n   %q\n", in.Origin, prep, ansi, se.Line, se.Char, se.Message, in.Src)
+			}
 			if len(meta.Notes) < 12 {
 				meta.Notes = append(meta.Notes, fmt.Sprintf("generated %s program does not parse (prepared=%v ansi=%v): %q: %s", in.Origin, prep, ansi, in.Src, se.Message))
 			}
@@ -273,6 +287,16 @@ func (d *c18Diff) run(in c18Input, prep, ansi bool) {
 		return
 	}
 	meta.Distribution["parse:ok"]++
+	// a lone code point whose number is a goyacc token number is handed to the parser as that token
+	// (Scan returns token = ch); what the parser then builds prints to text that means something else
+	tokenNumberRune := false
+	if toks, _, pan := c18ScanAll(in.Src, prep, ansi); pan == "" {
+		for _, t := range toks {
+			if rs := []rune(t.Literal); len(rs) == 1 && int(rs[0]) == t.Kind && t.Kind >= parser.IDENTIFIER && t.Kind <= parser.SUBSTITUTION_OP+2 {
+				tokenNumberRune = true
+			}
+		}
+	}
 	if in.Origin != "" {
 		meta.Distribution["parse-ok:"+in.Origin]++
 	}
@@ -289,6 +313,9 @@ func (d *c18Diff) run(in c18Input, prep, ansi bool) {
 		}
 		cn, ck, ctext, cdetail := d.culprit(n, prep, ansi)
 		key := ck + ":" + c18TypeName(cn)
+		if tokenNumberRune {
+			key = "print-reparse:token-number-code-point"
+		}
 		cc := map[string]interface{}{"kind": "round-trip", "origin": in.Origin, "src": in.Src, "prepared": prep, "ansi_quotes": ansi, "node": c18TypeName(cn), "printed": ctext, "detail": cdetail, "tags": []string{key}}
 		d.violation(key, fmt.Sprintf("%s: String() of a %s node gives %q, which %s (%s)", key, c18TypeName(cn), ctext,
 			map[string]string{"print-reparse": "does not parse", "print-differs": "parses to a tree that prints differently", "print-panic": "panics"}[ck], cdetail), cc)
